@@ -1036,7 +1036,7 @@ int32_t pstm_sub_s(const pstm_int *a, const pstm_int *b, pstm_int *c)
     }
     for (; x < a->used; x++)
     PS_VERIF_LOOP(__CPROVER_assigns(x, t, __CPROVER_object_whole(c->dp))
-        __CPROVER_loop_invariant(oldbused <= x && x <= a->used)
+        __CPROVER_loop_invariant(oldbused <= x && x <= a->used && t <= 1)
         __CPROVER_loop_invariant((PS_VERIF_K >= oldused && PS_VERIF_K >= a->used && PS_VERIF_K < c->alloc) ==> c->dp[PS_VERIF_K] == 0)
         __CPROVER_decreases(a->used - x))
     {
